@@ -2,7 +2,10 @@
 
 NOTE_COMMON = ("Trusted base: python's ast grammar; the documented semantics of pydantic, shapely, scipy, scikit-learn, "
                "numpy, xarray, rasterio and soundfile; NaN ignored in comparisons. The check decides the listed structural "
-               "necessary conditions for all inputs; it does not decide value-level behaviour.")
+               "necessary conditions for all inputs; it does not decide value-level behaviour. Summaries are taken modulo the "
+               "normal forms of DESIGN.md 8.6 (helpers absent from the reference name table inlined, canonical conditionals, "
+               "fill-by-loop accumulators as comprehensions, local functions as lambdas); the thorough tier re-runs the "
+               "mutant catalogue and the 161 stored seeded changes (100 defects, 61 behaviour-preserving refactors).")
 
 CLAIMS = {
     "C01": {
@@ -11,7 +14,7 @@ CLAIMS = {
                 "restored, every sub-adapter store is emitted as a top-level list and re-registered in wiring order, and the "
                 "type table is most-specific-first and consistent with the discriminated union. Codec fidelity of values and "
                 "the n-cycle fixpoint are not decided.",
-        "design_ref": "DESIGN.md section 3, C01 (R01.1-R01.6)",
+        "design_ref": "DESIGN.md section 3, C01 (R01.1-R01.6); R01.7 and the memo-table scenarios in sections 8.2 / 8.6",
         "note": NOTE_COMMON,
         "technique": "ast-based field-flow analysis over gated-SSA summaries of every adapter pair; wiring-graph order check",
     },
@@ -42,7 +45,7 @@ CLAIMS = {
                 "the List annotation; normalising validators yield normal form on every ordering; the tag<->class table is complete "
                 "and injective; geometry_validate dispatches on the object's own tag in all three modes; validators return or raise "
                 "convertible errors. pydantic coercion / nesting-shape rejection / JSON dump equality are trusted, not decided.",
-        "design_ref": "DESIGN.md section 3, C03 (R03.1-R03.5)",
+        "design_ref": "DESIGN.md section 3, C03 (R03.1-R03.5); R03.6 point arity in section 8.6",
         "note": NOTE_COMMON,
         "technique": "guard extraction from gated-SSA summaries, compiled to formulas and compared with the specification on an endpoint grid / all weak orderings",
     },
